@@ -21,6 +21,8 @@ pub struct Cfg {
 pub enum Op {
     Build { res: &'static str, inbound: bool, batch: u32 },
     Exit(usize),
+    /// the caller records a business error on the oldest open entry, then exits it: accounted as any exit
+    ExitErr,
     Advance(u64),
 }
 
@@ -181,7 +183,11 @@ impl Subject for C04 {
         for i in 0..self.open.len().min(4) {
             v.push(Op::Exit(i));
         }
-        for d in [1, 499, 500, 1000, 10000] {
+        if !self.open.is_empty() {
+            v.push(Op::ExitErr);
+        }
+        // 61 000 ms: a response time beyond the statistic window and beyond the default maximum
+        for d in [1, 499, 500, 1000, 10000, 61_000] {
             v.push(Op::Advance(d));
         }
         v
@@ -192,6 +198,10 @@ impl Subject for C04 {
                 self.do_build(res, *inbound, *batch)?;
             }
             Op::Exit(i) => self.do_exit(*i),
+            Op::ExitErr => {
+                self.open[0].e.set_err(sentinel_core::Error::msg("business error"));
+                self.do_exit(0);
+            }
             Op::Advance(d) => {
                 advance_ms(*d);
                 self.advanced = true;
